@@ -71,6 +71,8 @@ def targets(spec):
         dms.append(0.0)  # an absolute target that is special as a value, not relative to the folding DM: exactly zero
     e3 = 400.3 * p0 / (tobs * nbins)  # hundreds of bins of drift: exposes any dependence on the current period
     ps = [p0, p0 * (1 + e1), p0 * (1 - e2), p0 * (1 + 0.02 * e1), p0 * (1 + e3)]
+    if spec.get("p_targets"):
+        ps = [p0] + [p0 * (1 + d) for d in spec["p_targets"]]
     return dms, ps
 
 
@@ -187,17 +189,22 @@ FIXED_CUBES = [
     {"layout": "F", "nints": 2, "nbands": 3, "nbins": 32, "seed": 2, "nchans": 96, "foff": -1.0, "fch1": 350.0, "tsamp": 64e-6, "nsamples": 4000000, "p0": 0.0337, "dm0": 0.0},
     {"layout": "strided_view", "nints": 4, "nbands": 1, "nbins": 8, "seed": 3, "nchans": 32, "foff": -4.0, "fch1": 800.0, "tsamp": 1e-3, "nsamples": 600000, "p0": 0.5, "dm0": 100.0},
     {"nints": 1, "nbands": 6, "nbins": 64, "seed": 4, "nchans": 96, "foff": 1.0, "fch1": 300.0, "tsamp": 1e-3, "nsamples": 100000, "p0": 0.0123, "dm0": 12.5},
+    # everything dyadic (p0 = 1 s, tobs = 128 s, 16 bins, 8 sub-integrations): the period targets put the drift of the odd
+    # sub-integrations EXACTLY on half a bin, where the rounding rule decides - and must decide the same way whatever
+    # was installed before
+    {"nints": 8, "nbands": 2, "nbins": 16, "seed": 5, "nchans": 64, "foff": -2.0, "fch1": 500.0, "tsamp": 2.0**-10, "nsamples": 2**17, "p0": 1.0, "dm0": 0.0,
+     "p_targets": [1 / 512, 1 / 256, 3 / 512, -1 / 512, 1 / 128]},
 ]
 
 
 def enum_histories(tier):
     # quick: two descending-band cubes to depth 4 and the ascending-band cube to depth 3
-    cubes = [0, 1, 3] if tier == "quick" else [0, 1, 2, 3]
+    cubes = [0, 1, 3, 4] if tier == "quick" else [0, 1, 2, 3, 4]
     for ci in cubes:
         spec = FIXED_CUBES[ci]
         dms, ps = targets(spec)
         alpha = [("dm", v) for v in dms] + [("p", v) for v in ps]
-        depth = (3 if ci == 3 else 4) if tier == "quick" else (5 if ci == 0 else 4)
+        depth = (3 if ci >= 3 else 4) if tier == "quick" else (5 if ci == 0 else 4)
         for L in range(1, depth + 1):
             for seq in itertools.product(range(len(alpha)), repeat=L):
                 yield {"cube": ci, "ops": list(seq)}
